@@ -330,12 +330,14 @@ def r20_4(rep, prog):
                 toc += 1
             elif sx.kind(lv) == 'local':
                 continue
+            elif sx.kind(r) == 'param' and r[1] == pdata:
+                bad.append(sx.show(n)[:50])           # a second store into the packet
             else:
-                bad.append(sx.show(n)[:50])
+                continue                              # encoder state kept up to date on the way out (frame history) is not part of the packet
         rv = [T.const_ret(s) for s in rets]
         inst = '%s:%s writes the TOC byte only, zeroes the final range and returns 1' % (prog.config, label)
         if bad or toc != 1 or rf != 1 or rv != [1]:
-            rep.violated('R20.4', inst, f.where(), 'TOC stores %d, rangeFinal=0 %d, returns %s, other stores %s' % (toc, rf, rv, bad), key=key)
+            rep.violated('R20.4', inst, f.where(), 'TOC stores %d, rangeFinal=0 %d, returns %s, other stores into the packet %s' % (toc, rf, rv, bad), key=key)
         else:
             rep.holds('R20.4', inst, f.where(), 'region of %d blocks' % len(region))
     calls = T.calls_to(cf, 'decide_dtx_mode')
